@@ -842,5 +842,424 @@ theorem contradictions {env : Env} {f : FileCfg} {c : CliOpts} (hdom : namesSimp
     obtain ⟨s1, s2, _, _⟩ := spec_of_ok he
     exact hnot ((accepted_consistent he).2.2.2.2 (by rw [← s1]; exact hst) n (by rw [← s2]; exact hn))
 
+/-! ### `override_equiv`: running with an option = running with its value written into the file -/
+
+theorem isAbs_joinPath {d : String} (p : String) (h : isAbs d = true) : isAbs (joinPath d p) = true := by
+  unfold isAbs joinPath at *
+  cases hd : d.toList with
+  | nil => simp [hd] at h
+  | cons x t => simp [hd] at h ⊢; exact h
+
+theorem isAbs_atCwd {env : Env} (hcwd : isAbs env.cwd = true) (p : String) : isAbs (atCwd env p) = true := by
+  unfold atCwd
+  split
+  · assumption
+  · exact isAbs_joinPath p hcwd
+
+theorem getAbsPath_atCwd {env : Env} (hcwd : isAbs env.cwd = true) (p : String) :
+    getAbsPath env (atCwd env p) = atCwd env p := by
+  unfold getAbsPath
+  rw [isAbs_atCwd hcwd p]; rfl
+
+theorem atCwd_ne_none {env : Env} (hcwd : isAbs env.cwd = true) (p : String) : atCwd env p ≠ "none" := by
+  intro h
+  have := isAbs_atCwd hcwd p
+  rw [h] at this
+  revert this; decide
+
+theorem residual_namesSimple {env : Env} {f : FileCfg} {c : CliOpts} (h : namesSimple f c = true) :
+    namesSimple (f.withCli env c) c.residual = true := by
+  unfold namesSimple at h ⊢
+  simp only [Bool.and_eq_true] at h ⊢
+  obtain ⟨⟨⟨h1, h2⟩, h3⟩, h4⟩ := h
+  refine ⟨⟨⟨h1, h2⟩, ?_⟩, rfl⟩
+  simp only [FileCfg.withCli]
+  cases hc : c.reportCommodity with
+  | none => simpa using h3
+  | some n => rw [hc] at h4; simpa using h4
+
+theorem residual_clapAccepts {c : CliOpts} (h : clapAccepts c = true) : clapAccepts c.residual = true := by
+  unfold clapAccepts at h ⊢
+  simp only [Bool.and_eq_true, Bool.not_eq_true'] at h ⊢
+  obtain ⟨⟨_, hconf⟩, _⟩ := h
+  refine ⟨⟨by simp [clapValues, CliOpts.residual, inSet, listIn], ?_⟩, by simp [clapRequires, CliOpts.residual]⟩
+  unfold clapConflicts at hconf ⊢
+  simp only [CliOpts.residual, fsAny, gitAny, Option.isSome_none, Bool.false_or, Bool.or_false, Bool.false_and]
+  cases hf : c.inputFile with
+  | none => simp
+  | some p =>
+    cases hk : c.inputGitCommit with
+    | none => simp
+    | some k => simp [hf, hk, gitAny] at hconf
+
+/-- clap has checked the target lists: `to_report_targets` cannot fail on them -/
+theorem mapParse_of_all {α} (p : String → Option α) (vals : List String) (hv : ∀ s, vals.contains s = true → (p s).isSome = true)
+    (l : List String) (h : l.all vals.contains = true) : ∃ r, mapParse p l = .ok r := by
+  induction l with
+  | nil => exact ⟨[], rfl⟩
+  | cons s t ih =>
+    simp only [List.all_cons, Bool.and_eq_true] at h
+    obtain ⟨r, hr⟩ := ih h.2
+    have := hv s h.1
+    cases hp : p s with
+    | none => rw [hp] at this; cases this
+    | some a => exact ⟨a :: r, by simp [mapParse, hp, hr]⟩
+
+theorem clap_reports {c : CliOpts} (h : clapValues c = true) (l : List String) (hl : c.reports = some l) :
+    ∃ r, toReportTargets l = .ok r := by
+  unfold clapValues at h
+  simp only [Bool.and_eq_true] at h
+  have := h.1.1.1.1.2
+  rw [hl] at this
+  simp only [listIn, Bool.and_eq_true] at this
+  exact mapParse_of_all ReportT.parse _ (by intro s hs; simp at hs; rcases hs with rfl | rfl | rfl <;> decide) l this.2
+
+theorem clap_exports {c : CliOpts} (h : clapValues c = true) (l : List String) (hl : c.exports = some l) :
+    ∃ r, toExportTargets l = .ok r := by
+  unfold clapValues at h
+  simp only [Bool.and_eq_true] at h
+  have := h.1.1.1.2
+  rw [hl] at this
+  simp only [listIn, Bool.and_eq_true] at this
+  exact mapParse_of_all ExportT.parse _ (by intro s hs; simp at hs; rcases hs with rfl | rfl <;> decide) l this.2
+
+theorem clap_groupBy {c : CliOpts} (h : clapValues c = true) (s : String) (hs : c.groupBy = some s) :
+    ∃ g, GroupBy.parse s = some g := by
+  unfold clapValues at h
+  simp only [Bool.and_eq_true] at h
+  have := h.1.1.2
+  rw [hs] at this
+  simp only [inSet] at this
+  have hv : ∀ s, ["year", "month", "date", "iso-week", "iso-week-date"].contains s = true → (GroupBy.parse s).isSome = true := by
+    intro s hs; simp at hs; rcases hs with rfl | rfl | rfl | rfl | rfl <;> decide
+  exact Option.isSome_iff_exists.mp (hv s this)
+
+theorem clap_storage {c : CliOpts} (h : clapValues c = true) (s : String) (hs : c.inputStorage = some s) :
+    ∃ g, Storage.parse s = some g := by
+  unfold clapValues at h
+  simp only [Bool.and_eq_true] at h
+  have := h.1.1.1.1.1
+  rw [hs] at this
+  simp only [inSet] at this
+  have hv : ∀ s, ["fs", "git"].contains s = true → (Storage.parse s).isSome = true := by
+    intro s hs; simp at hs; rcases hs with rfl | rfl <;> decide
+  exact Option.isSome_iff_exists.mp (hv s this)
+
+theorem clap_lookup {c : CliOpts} (h : clapValues c = true) (s : String) (hs : c.lookupType = some s) :
+    ∃ g, Lookup.parse s = some g := by
+  unfold clapValues at h
+  simp only [Bool.and_eq_true] at h
+  have := h.1.2
+  rw [hs] at this
+  exact Option.isSome_iff_exists.mp this
+
+/-- the overlaid lookup type / price file, and what `Price::try_from` makes of the written `[price]` section:
+    the same pair, or an error exactly where the run with the options fails to read the price file `""` -/
+theorem price_with {env : Env} {f : FileCfg} {c : CliOpts} {db : String} {lt : Lookup}
+    (hcwd : isAbs env.cwd = true) (hclap : clapValues c = true) (hp : priceFrom env f.price = .ok (db, lt)) :
+    ∃ ltE, (match c.lookupType with | some s => Lookup.parse s | none => some lt) = some ltE ∧
+      (priceFrom env (priceWith env f.price c.pricedb c.lookupType) =
+          .ok ((match c.pricedb with | some p => atCwd env p | none => db), ltE) ∨
+       (priceFrom env (priceWith env f.price c.pricedb c.lookupType) = .err ∧ ltE ≠ .none ∧
+          (match c.pricedb with | some p => atCwd env p | none => db) = "")) := by
+  cases hlto : c.lookupType with
+  | none =>
+    refine ⟨lt, rfl, ?_⟩
+    cases hdbo : c.pricedb with
+    | none =>
+      left
+      have : priceWith env f.price none none = f.price := by unfold priceWith; cases f.price <;> rfl
+      rw [this]; exact hp
+    | some p =>
+      left
+      cases hprice : f.price with
+      | none =>
+        rw [hprice] at hp
+        simp only [priceFrom] at hp; cases hp
+        have hpn : Lookup.parse "none" = some .none := by decide
+        simp [priceWith, priceFrom, atCwd_ne_none hcwd, getAbsPath_atCwd hcwd, hpn]
+      | some r =>
+        rw [hprice] at hp
+        simp only [priceFrom] at hp
+        cases hl0 : Lookup.parse r.lookupType with
+        | none => simp [hl0] at hp
+        | some lt0 =>
+          simp only [hl0] at hp
+          have hlt : lt = lt0 := by
+            split at hp
+            · split at hp
+              · cases hp; rename_i h0; exact h0.symm
+              · cases hp
+            · cases hp; rfl
+          simp [priceWith, priceFrom, hl0, atCwd_ne_none hcwd, getAbsPath_atCwd hcwd, hlt]
+  | some sl =>
+    obtain ⟨ltE, hltE⟩ := clap_lookup hclap sl hlto
+    refine ⟨ltE, hltE, ?_⟩
+    cases hdbo : c.pricedb with
+    | some p =>
+      left
+      cases hprice : f.price with
+      | none => simp [priceWith, priceFrom, hltE, atCwd_ne_none hcwd, getAbsPath_atCwd hcwd]
+      | some r => simp [priceWith, priceFrom, hltE, atCwd_ne_none hcwd, getAbsPath_atCwd hcwd]
+    | none =>
+      cases hprice : f.price with
+      | none =>
+        rw [hprice] at hp
+        simp only [priceFrom] at hp; cases hp
+        by_cases hn : ltE = .none
+        · left; subst hn; simp [priceWith, priceFrom, hltE]
+        · right; simp [priceWith, priceFrom, hltE, hn]
+      | some r =>
+        rw [hprice] at hp
+        simp only [priceFrom] at hp
+        cases hl0 : Lookup.parse r.lookupType with
+        | none => simp [hl0] at hp
+        | some lt0 =>
+          simp only [hl0] at hp
+          by_cases hnone : r.dbPath = "none"
+          · simp only [hnone, ↓reduceIte] at hp
+            split at hp
+            · cases hp
+              by_cases hn : ltE = .none
+              · left; subst hn; simp [priceWith, priceFrom, hltE, hnone]
+              · right; simp [priceWith, priceFrom, hltE, hnone, hn]
+            · cases hp
+          · simp only [hnone, ↓reduceIte] at hp
+            cases hp
+            left; simp [priceWith, priceFrom, hltE, hnone]
+
+/-- the body of `Settings::try_from` after the overlaid values have been computed -/
+def settingsCore (env : Env) (strict audit : Bool) (reports : Outcome (List ReportT))
+    (exports : Outcome (List ExportT)) (lt : Outcome Lookup) (rc : Outcome (Option String))
+    (gb : Outcome GroupBy) (accounts : List String) (equityAccount : String) (before : Option String)
+    (db : String) (acc : Option (List String)) : Outcome Sett :=
+  match reports, exports, lt, rc, gb with
+  | .ok reports, .ok exports, .ok lt, .ok rc, .ok gb =>
+    if strict && exports.contains .equity && !accounts.contains equityAccount then .err
+    else if rc.isNone && lt != .none then .err
+    else
+      match priceLookupFrom env lt before with
+      | .ok pl =>
+        if lt = .none then
+          .ok { strict := strict, audit := audit, reports := reports, exports := exports, commodity := rc,
+                lookup := lt, priceLookup := pl, priceDb := none, groupBy := gb, globalAccSel := acc }
+        else if env.dbOk db strict then
+          .ok { strict := strict, audit := audit, reports := reports, exports := exports, commodity := rc,
+                lookup := lt, priceLookup := pl, priceDb := some db, groupBy := gb, globalAccSel := acc }
+        else .err
+      | .err => .err
+      | .undef => .undef
+  | _, _, _, _, _ => .err
+
+theorem settingsFrom_core (env : Env) (cfg : Cfg) (ov : Overlaps) :
+    settingsFrom env cfg ov =
+      settingsCore env (ov.strictMode.getD cfg.strict) (ov.auditMode.getD cfg.audit) (reportsOf cfg ov.reports)
+        (exportsOf cfg ov.exports) (lookupOf cfg ov.lookupType)
+        (reportCommodityOf cfg (ov.strictMode.getD cfg.strict) ov.commodity) (groupByOf cfg ov.groupBy)
+        cfg.accounts cfg.equityAccount ov.beforeTime (dbPathOf env cfg ov.dbPath) ov.accountOverlap := by
+  unfold settingsFrom settingsCore
+  rfl
+
+/-- the selector overlap is only carried along -/
+theorem settingsCore_acc (env : Env) (strict audit : Bool) (reports : Outcome (List ReportT))
+    (exports : Outcome (List ExportT)) (lt : Outcome Lookup) (rc : Outcome (Option String))
+    (gb : Outcome GroupBy) (accounts : List String) (equityAccount : String) (before : Option String)
+    (db : String) (acc : Option (List String)) :
+    settingsCore env strict audit reports exports lt rc gb accounts equityAccount before db acc =
+      (settingsCore env strict audit reports exports lt rc gb accounts equityAccount before db none).map
+        (fun s => { s with globalAccSel := acc }) := by
+  unfold settingsCore
+  (repeat' split) <;> rfl
+
+theorem settingsCore_none_acc {env : Env} {strict audit : Bool} {reports : Outcome (List ReportT)}
+    {exports : Outcome (List ExportT)} {lt : Outcome Lookup} {rc : Outcome (Option String)}
+    {gb : Outcome GroupBy} {accounts : List String} {equityAccount : String} {before : Option String}
+    {db : String} {s : Sett}
+    (h : settingsCore env strict audit reports exports lt rc gb accounts equityAccount before db none = .ok s) :
+    s.globalAccSel = none := by
+  unfold settingsCore at h
+  (repeat' split at h) <;> first | (cases h; done) | (cases h; rfl)
+
+/-- with the price file `""` unreadable, a lookup type other than `none` cannot succeed on it -/
+theorem settingsCore_db_empty {env : Env} (hdb : ∀ s, env.dbOk "" s = false) {strict audit : Bool}
+    {reports : Outcome (List ReportT)} {exports : Outcome (List ExportT)} {lt : Lookup}
+    {rc : Outcome (Option String)} {gb : Outcome GroupBy} {accounts : List String} {equityAccount : String}
+    {before : Option String} {acc : Option (List String)} (hne : lt ≠ .none) :
+    settingsCore env strict audit reports exports (.ok lt) rc gb accounts equityAccount before "" acc = .err := by
+  cases h : settingsCore env strict audit reports exports (.ok lt) rc gb accounts equityAccount before "" acc with
+  | err => rfl
+  | ok s =>
+    have hdb' := hdb strict
+    clear hdb
+    unfold settingsCore at h
+    (repeat' split at h) <;> first | (cases h; done) | simp_all
+  | undef =>
+    unfold settingsCore at h
+    (repeat' split at h) <;> try (cases h; done)
+    all_goals
+      rename_i hpl
+      unfold priceLookupFrom at hpl
+      (repeat' split at hpl) <;> cases hpl
+
+theorem storageWith_parse {f : FileCfg} {c : CliOpts} {st : Storage} (hcv : clapValues c = true)
+    (c1 : Storage.parse f.storage = some st) : ∃ st', Storage.parse (storageWith f c) = some st' := by
+  unfold storageWith
+  cases hs : c.inputStorage with
+  | some s => exact clap_storage hcv s hs
+  | none =>
+    simp only
+    split
+    · exact ⟨.fs, by decide⟩
+    · split
+      · exact ⟨.git, by decide⟩
+      · exact ⟨st, c1⟩
+
+theorem gitWith_ok {env : Env} {f : FileCfg} {c : CliOpts} {g : Option GitC} (c2 : gitOptFrom f.git = .ok g) :
+    ∃ g', gitOptFrom (gitWith env f.git c) = .ok g' := by
+  unfold gitWith
+  cases hr : c.inputGitRepo <;> cases hd : c.inputGitDir <;> simp only
+  case some.some => simp only [gitOptFrom, gitFrom]; exact ⟨_, rfl⟩
+  all_goals
+    cases hg : f.git with
+    | none => exact ⟨none, by cases c.inputGitRef <;> rfl⟩
+    | some r =>
+      rw [hg] at c2
+      cases href : c.inputGitRef with
+      | none => exact ⟨g, c2⟩
+      | some ref =>
+        simp only
+        unfold gitOptFrom gitFrom at c2 ⊢
+        cases hrepo : r.repo with
+        | some x => exact ⟨_, rfl⟩
+        | none =>
+          cases hrepo2 : r.repository with
+          | some x => exact ⟨_, rfl⟩
+          | none => simp [hrepo, hrepo2] at c2
+
+/-- the option sets about the input that clap lets through -/
+inductive Shape (c : CliOpts) : Prop where
+  | nothing : c.inputFile = none → c.inputStorage = none → c.inputFsDir = none → c.inputFsExt = none →
+      c.inputGitRepo = none → c.inputGitRef = none → c.inputGitCommit = none → c.inputGitDir = none → Shape c
+  | file (p : String) : c.inputFile = some p → c.inputStorage = none → c.inputFsDir = none → c.inputFsExt = none →
+      c.inputGitRepo = none → c.inputGitRef = none → c.inputGitCommit = none → c.inputGitDir = none → Shape c
+  | storage (s : String) : c.inputFile = none → c.inputStorage = some s → c.inputFsDir = none → c.inputFsExt = none →
+      c.inputGitRepo = none → c.inputGitRef = none → c.inputGitCommit = none → c.inputGitDir = none → Shape c
+  | fs (d x : String) : c.inputFile = none → c.inputStorage = none → c.inputFsDir = some d → c.inputFsExt = some x →
+      c.inputGitRepo = none → c.inputGitRef = none → c.inputGitCommit = none → c.inputGitDir = none → Shape c
+  | gitRef (r x d : String) : c.inputFile = none → c.inputStorage = none → c.inputFsDir = none → c.inputFsExt = none →
+      c.inputGitRepo = some r → c.inputGitRef = some x → c.inputGitCommit = none → c.inputGitDir = some d → Shape c
+  | gitCommit (r k d : String) : c.inputFile = none → c.inputStorage = none → c.inputFsDir = none → c.inputFsExt = none →
+      c.inputGitRepo = some r → c.inputGitRef = none → c.inputGitCommit = some k → c.inputGitDir = some d → Shape c
+  | refOnly (x : String) : c.inputFile = none → c.inputStorage = none → c.inputFsDir = none → c.inputFsExt = none →
+      c.inputGitRepo = none → c.inputGitRef = some x → c.inputGitCommit = none → c.inputGitDir = none → Shape c
+  | commitOnly (k : String) : c.inputFile = none → c.inputStorage = none → c.inputFsDir = none → c.inputFsExt = none →
+      c.inputGitRepo = none → c.inputGitRef = none → c.inputGitCommit = some k → c.inputGitDir = none → Shape c
+
+theorem clap_shapes {c : CliOpts} (h : clapAccepts c = true) : Shape c := by
+  unfold clapAccepts clapConflicts clapRequires fsAny gitAny at h
+  simp only [Bool.and_eq_true, Bool.not_eq_true'] at h
+  obtain ⟨⟨_, hconf⟩, hreq⟩ := h
+  cases hf : c.inputFile <;> cases hs : c.inputStorage <;> cases hd : c.inputFsDir <;> cases hx : c.inputFsExt <;>
+    cases hr : c.inputGitRepo <;> cases hg : c.inputGitRef <;> cases hk : c.inputGitCommit <;>
+    cases hdir : c.inputGitDir <;>
+    simp only [hf, hs, hd, hx, hr, hg, hk, hdir, Option.isSome_some, Option.isSome_none] at hconf hreq <;>
+    first
+      | (simp at hconf; done)
+      | (simp at hreq; done)
+      | exact .nothing hf hs hd hx hr hg hk hdir
+      | exact .file _ hf hs hd hx hr hg hk hdir
+      | exact .storage _ hf hs hd hx hr hg hk hdir
+      | exact .fs _ _ hf hs hd hx hr hg hk hdir
+      | exact .gitRef _ _ _ hf hs hd hx hr hg hk hdir
+      | exact .gitCommit _ _ _ hf hs hd hx hr hg hk hdir
+      | exact .refOnly _ hf hs hd hx hr hg hk hdir
+      | exact .commitOnly _ hf hs hd hx hr hg hk hdir
+
+set_option linter.unusedSimpArgs false
+
+theorem stripDot_txn : stripDot "txn" = "txn" := by decide
+
+/-- the input chosen from the written file (with the options that have no key) is the input chosen from
+    the original file and the options -/
+theorem input_equiv {env : Env} {f : FileCfg} {c : CliOpts} {cfg cfg' : Cfg}
+    (hcwd : isAbs env.cwd = true) (hclap : clapAccepts c = true)
+    (hcfg : configFrom env f = .ok cfg) (hcfg' : configFrom env (f.withCli env c) = .ok cfg') :
+    getInputType env cfg' c.residual = getInputType env cfg c := by
+  obtain ⟨st, g, db, lt, rts, gb, ets, c1, c2, c3, c4, c5, c6, rfl⟩ := configFrom_ok hcfg
+  obtain ⟨st', g', db', lt', rts', gb', ets', d1, d2, d3, d4, d5, d6, rfl⟩ := configFrom_ok hcfg'
+  simp only [FileCfg.withCli] at d1 d2
+  have hgit : Storage.parse "git" = some .git := by decide
+  have hfs : Storage.parse "fs" = some .fs := by decide
+  cases clap_shapes hclap with
+  | nothing hf hs hd hx hr hg hk hdir =>
+    simp only [storageWith, gitWith, hs, hd, hr, hg, hk, hdir, Option.isSome_none, Bool.false_eq_true, ↓reduceIte,
+      Bool.or_self] at d1 d2
+    rw [c1] at d1; cases d1
+    have : g' = g := by
+      have : gitOptFrom f.git = .ok g' := by cases hfg : f.git <;> simpa [hfg] using d2
+      rw [c2] at this; cases this; rfl
+    subst this
+    simp [getInputType, getGitSelector, CliOpts.residual, hf, hs, hd, hx, hr, hg, hk, hdir, getInputSettings,
+      storageTypeOf, inputOfStorage, FileCfg.withCli, fsWith]
+  | file p hf hs hd hx hr hg hk hdir =>
+    simp [getInputType, getGitSelector, CliOpts.residual, hf, hs, hd, hx, hr, hg, hk, hdir]
+  | storage s0 hf hs hd hx hr hg hk hdir =>
+    simp only [storageWith, gitWith, hs, hd, hr, hg, hk, hdir] at d1 d2
+    have : g' = g := by
+      have : gitOptFrom f.git = .ok g' := by cases hfg : f.git <;> simpa [hfg] using d2
+      rw [c2] at this; cases this; rfl
+    subst this
+    simp [getInputType, getGitSelector, CliOpts.residual, hf, hs, hd, hx, hr, hg, hk, hdir, getInputSettings,
+      storageTypeOf, inputOfStorage, FileCfg.withCli, fsWith, d1]
+  | fs d x hf hs hd hx hr hg hk hdir =>
+    simp only [storageWith, hs, hd, Option.isSome_some, ↓reduceIte] at d1
+    rw [hfs] at d1; cases d1
+    simp [getInputType, getGitSelector, CliOpts.residual, hf, hs, hd, hx, hr, hg, hk, hdir, getInputSettings,
+      storageTypeOf, inputOfStorage, FileCfg.withCli, fsWith, fsFrom, getAbsPath_atCwd hcwd]
+  | gitRef r x d hf hs hd hx hr hg hk hdir =>
+    simp only [storageWith, gitWith, hs, hd, hr, hg, hk, hdir, Option.isSome_some, Option.isSome_none,
+      Bool.false_eq_true, ↓reduceIte, Bool.true_or] at d1 d2
+    rw [hgit] at d1; cases d1
+    simp only [gitOptFrom, gitFrom] at d2
+    cases d2
+    simp [getInputType, getGitSelector, CliOpts.residual, hf, hs, hd, hx, hr, hg, hk, hdir, getInputSettings,
+      storageTypeOf, inputOfStorage, getAbsPath_atCwd hcwd, stripDot_txn]
+  | gitCommit r k d hf hs hd hx hr hg hk hdir =>
+    simp only [storageWith, gitWith, hs, hd, hr, hg, hk, hdir, Option.isSome_some, Option.isSome_none,
+      Bool.false_eq_true, ↓reduceIte, Bool.true_or] at d1 d2
+    simp only [gitOptFrom, gitFrom] at d2
+    cases d2
+    simp [getInputType, getGitSelector, CliOpts.residual, hf, hs, hd, hx, hr, hg, hk, hdir, getInputSettings,
+      storageTypeOf, inputOfStorage, getAbsPath_atCwd hcwd, stripDot_txn, hgit]
+  | refOnly x hf hs hd hx hr hg hk hdir =>
+    simp only [storageWith, gitWith, hs, hd, hr, hg, hk, hdir, Option.isSome_some, Option.isSome_none,
+      Bool.false_eq_true, ↓reduceIte, Bool.true_or, Bool.false_or, Bool.or_false] at d1 d2
+    rw [hgit] at d1; cases d1
+    simp only [getInputType, getGitSelector, CliOpts.residual, hf, hs, hd, hx, hr, hg, hk, hdir, getInputSettings,
+      storageTypeOf, inputOfStorage, hgit]
+    cases hfg : f.git with
+    | none =>
+      rw [hfg] at c2 d2
+      simp only [gitOptFrom] at c2 d2
+      cases c2; cases d2; rfl
+    | some r0 =>
+      rw [hfg] at c2 d2
+      simp only [gitOptFrom, gitFrom] at c2 d2
+      cases hrepo : r0.repo with
+      | some y =>
+        simp only [hrepo] at c2 d2; cases c2; cases d2; rfl
+      | none =>
+        cases hrepo2 : r0.repository with
+        | some y => simp only [hrepo, hrepo2] at c2 d2; cases c2; cases d2; rfl
+        | none => simp [hrepo, hrepo2] at c2
+  | commitOnly k hf hs hd hx hr hg hk hdir =>
+    simp only [storageWith, gitWith, hs, hd, hr, hg, hk, hdir] at d1 d2
+    have : g' = g := by
+      have : gitOptFrom f.git = .ok g' := by cases hfg : f.git <;> simpa [hfg] using d2
+      rw [c2] at this; cases this; rfl
+    subst this
+    simp [getInputType, getGitSelector, CliOpts.residual, hf, hs, hd, hx, hr, hg, hk, hdir, getInputSettings,
+      storageTypeOf, inputOfStorage, hgit]
+
 end C19
 end Tackler
